@@ -381,3 +381,64 @@ def crash_experiments(prefix, step, world_kw=None, ks=None, keep_all=False):
         return out, npoints
     finally:
         shutil.rmtree(base, ignore_errors=True)
+
+
+def upgrade_experiments(prefix, world_kw=None, deliver=True):
+    """A restart across a software upgrade: the prefix is run and the server stopped in an orderly way, the
+    database is taken back to the schema of the previous release (no `mailboxes.msg_keys`, migrations >= 5
+    not recorded), optionally an MH agent delivers one message to every folder meanwhile, and the server is
+    started again (migrations run, msg_keys is rebuilt from the folder).  Returns experiment records in the
+    shape of crash_experiments (judged by the same clauses)."""
+    import sqlite3
+    import time
+    from .world import make_msg
+    world_kw = world_kw or {}
+    base = tempfile.mkdtemp(prefix="verif-upg-")
+    try:
+        root0 = os.path.join(base, "snap")
+        os.makedirs(root0)
+        led0 = os.path.join(base, "ledger0.json")
+        code, val = fork_run(_child_prefix, root0, prefix, led0, world_kw)
+        if code != 0:
+            raise RuntimeError(f"prefix failed: {code} {val}")
+        ledger0 = json.load(open(led0))
+        maildir = os.path.join(root0, "user", "Mail")
+        con = sqlite3.connect(os.path.join(maildir, "asimap.db"))
+        con.execute("ALTER TABLE mailboxes DROP COLUMN msg_keys")
+        con.execute("DELETE FROM versions WHERE version >= 5")
+        con.commit()
+        con.close()
+        delivered = {}
+        if deliver:
+            nid = ledger0["next_msg_id"]
+            for m, st in ledger0["acked"].items():
+                fdir = os.path.join(maildir, m)
+                if not os.path.isdir(fdir) or st.get("nosel"):
+                    continue
+                keys = [int(x) for x in os.listdir(fdir) if x.isdigit()]
+                k = (max(keys) if keys else 0) + 1
+                with open(os.path.join(fdir, str(k)), "wb") as f:
+                    f.write(make_msg(nid))
+                delivered.setdefault(m, []).append(nid)
+                nid += 1
+                seqf = os.path.join(fdir, ".mh_sequences")
+                lines = open(seqf).read().splitlines() if os.path.exists(seqf) else []
+                out, done = [], False
+                for ln in lines:
+                    if ln.startswith("unseen:"):
+                        ln, done = ln + f" {k}", True
+                    out.append(ln)
+                if not done:
+                    out.append(f"unseen: {k}")
+                open(seqf, "w").write("\n".join(out) + "\n")
+                t = time.time() + 5
+                os.utime(fdir, (t, t))
+        obsp = os.path.join(base, "obs.json")
+        fork_run(_child_observe, root0, obsp, world_kw)
+        obs = json.load(open(obsp)) if os.path.exists(obsp) else {"started": False, "error": "observer died"}
+        return [{"k": 1, "point": ["upgrade", "start on a database at the previous schema" + (" after a delivery" if deliver else "")],
+                 "killed": False, "end": True, "exit": 0, "ledger0": ledger0, "acks": [], "obs": obs,
+                 "completed": None, "delivered": delivered, "ctx": "upgrade+delivery" if deliver else "upgrade"}], 1
+    finally:
+        shutil.rmtree(base, ignore_errors=True)
+
